@@ -1,5 +1,5 @@
 """Properties decided on the DSL value graph: C02 C03 C05 C09 C10 C20 (+ parts of C01 C04 C08)."""
-from .. import alphabet as al, dsl, explore, monitors, rx
+from .. import alphabet as al, dsl, env, explore, monitors, rx
 
 
 def phases_for(tier):
@@ -29,8 +29,8 @@ def phases_for(tier):
     ]
 
 
-def _run(run, mons):
-    phases = phases_for(run.tier)
+def _run(run, mons, extra_phases=()):
+    phases = phases_for(run.tier) + list(extra_phases)
     hashes, viol, counts, samples, outcomes, names, bounds, per = set(), [], {}, [], set(), [], [], []
     for atoms, levels, nested in phases:
         res = explore.run([dsl.atom(e, l) for e, l in atoms], levels, mons, nested_tail=nested)
@@ -71,8 +71,54 @@ def _run(run, mons):
     return cov, assumptions
 
 
+FOLD_CLASSES = ['Concat', 'Either', 'Enclose', 'FollowedBy', 'NotFollowedBy', 'PrecededBy', 'NotPrecededBy', 'EnclosedBy', 'NotEnclosedBy']
+FOLD_METHOD = {'Concat': 'concat', 'Either': 'either', 'Enclose': 'enclose', 'FollowedBy': 'followed_by', 'NotFollowedBy': 'not_followed_by',
+               'PrecededBy': 'preceded_by', 'NotPrecededBy': 'not_preceded_by', 'EnclosedBy': 'enclosed_by', 'NotEnclosedBy': 'not_enclosed_by'}
+
+
+def _task_fold(arg):
+    """class forms of arity 3 and 4 must equal the chained method calls (documented as folding left to right)"""
+    from ..common import V
+    dsl.setup_worker()
+    viol, n = [], 0
+    for cls, combo in arg:
+        args = ', '.join(combo)
+        chain = '(Pregex(%s))' % combo[0] if combo[0][0] in '\'"' else '(%s)' % combo[0]
+        if any(c == 'Pregex()' for c in combo[1:]) and cls.startswith('Not'):
+            continue
+        for c in combo[1:]:
+            chain = '(%s.%s(%s))' % (chain, FOLD_METHOD[cls], c)
+        outs = []
+        for src in (f'{cls}({args})', chain):
+            try:
+                outs.append(('ok', str(dsl.build(src))))
+            except Exception as e:  # noqa: BLE001
+                outs.append(('raise', type(e).__name__))
+        n += 1
+        a, b = outs
+        same = a == b or (a[0] == b[0] == 'ok' and rx.equiv(a[1], b[1])[0] in ('tree', 'texts'))
+        if not same:
+            viol.append(V(f'C02|fold|{cls}({args})', f"{cls}({args}) -> {a!r} but the chained form {chain} -> {b!r}",
+                          f"from mc import rx\na = {cls}({args})\nb = {chain}\nassert rx.equiv(str(a), str(b))[0] in ('tree', 'texts'), (str(a), str(b))"))
+    return viol, n
+
+
 def run_C02(run):
-    return _run(run, [monitors.C02(1500 if run.tier == 'quick' else 6000)])
+    import itertools
+    from .. import common
+    cov, assumptions = _run(run, [monitors.C02(1500 if run.tier == 'quick' else 6000)])
+    atoms = [e for e, _ in al.tiny_atoms()] + ["'a|b'", "'['", "Capture('c')", "Optional('a')"]
+    cases = [(cls, combo) for cls in FOLD_CLASSES for k in ((3,) if run.tier == 'quick' else (3, 4))
+             for combo in itertools.product(atoms if k == 3 else atoms[:6], repeat=k)]
+    n = 0
+    for viol, k in common.pmap(_task_fold, common.chunks(cases, 400)):
+        run.add(viol)
+        n += k
+    run.count('fold_cases', n)
+    cov['transitions'] += n
+    cov['traces_validated_against_impl'] += 2 * n
+    cov['rule'] += f' || class forms of arity 3{"" if run.tier == "quick" else "/4"} over {len(atoms)} atoms must equal the left-to-right chain of method calls'
+    return cov, assumptions
 
 
 def run_C03(run):
@@ -90,16 +136,93 @@ def run_C03(run):
     return cov, assumptions + ['argument domains are written from the docstrings :param:/:raises: sections; Python-level arity errors are out of scope']
 
 
+WAYS_OF_EMPTY = ['Pregex()', "Pregex('')", "Exactly('a', 0)", "Pregex('a') * 0", "0 * Pregex('a')", 'Concat()', 'Either()', "AtMost('a', 0)",
+                 "AtLeastAtMost('a', 0, 0)", "Concat(Pregex(), Pregex())", "Either(Pregex(), Pregex())", "Enclose(Pregex(), Pregex())",
+                 "Group(Pregex())", "Group(Pregex(), True)", "Capture(Pregex(), 'n')", "Optional(Pregex(), False)", "Indefinite(Concat())",
+                 "FollowedBy(Pregex(), Pregex())", "PrecededBy(Pregex(), Pregex())", "EnclosedBy(Concat(), Either())", "Pregex() + ''",
+                 "'' + Pregex()", "Concat('')", "Exactly(AnyDigit(), 0)", "Exactly(Either('a', 'b'), 0)", "AtMost(Capture('a'), 0)",
+                 "Pregex('', escape=False)", "Exactly(MatchAtStart('a'), 0)"]
+
+
 def run_C05(run):
-    return _run(run, [monitors.C05()])
+    q, gq, an, bi = dsl.quantifier_ops(), dsl.group_ops(), dsl.anchor_ops(), dsl.binary_ops()
+    ways = al.atom_list([], WAYS_OF_EMPTY)
+    partners = al.atom_list(['a', 'a|b'], ['Pregex()', 'Concat()', "Exactly('a', 0)", 'AnyDigit()', "Either('a', 'b')"])
+    L = explore.Level
+    extra = [(ways, [L(q + gq + an, bi + dsl.cond_ops()[1:], partners, (0, 1), 'ways of being empty, depth 1: all ops'),
+                     L(dsl.core_quantifier_ops() + gq, bi, partners[:4], (0, 1), 'ways of being empty, depth 2')], False)]
+    cov, assumptions = _run(run, [monitors.C05()], extra)
+    # every way of being empty reaches the single canonical empty state
+    from ..common import V
+    for e in WAYS_OF_EMPTY:
+        try:
+            o = dsl.build(e)
+            ok = str(o) == '' and o._get_type() == env.pre._Type.Empty and o.get_pattern() == ''
+        except Exception:  # noqa: BLE001
+            ok = False
+        if not ok:
+            run.add([V(f'C05|way-of-empty|{e}', f"{e} is not the canonical empty pattern",
+                       f"o = {e}\nassert str(o) == '' and o._get_type() == pre._Type.Empty")])
+    run.count('ways_of_being_empty', len(WAYS_OF_EMPTY))
+    return cov, assumptions
+
+
+def _task_literals(arg):
+    """every literal string is repeatable (C09) and has one fixed width (C10)"""
+    from ..common import V
+    lits, pid = arg
+    dsl.setup_worker()
+    viol, n = [], 0
+    P = dsl.NS['Pregex']
+    if pid == 'C09':
+        forms = ['Indefinite({0})', 'OneOrMore({0}, False)', 'Exactly({0}, 2)', 'AtLeast({0}, 2)', 'AtMost({0}, 3)', 'AtLeastAtMost({0}, 1, 2)',
+                 'Pregex({0}).indefinite()', 'Pregex({0}).one_or_more()', 'Pregex({0}).exactly(3)', 'Pregex({0}) * 2', '2 * Pregex({0})',
+                 'Pregex({0}).at_least(2)', 'Pregex({0}).at_most(2, False)', 'Pregex({0}).at_least_at_most(2, 3)',
+                 '(Pregex({0}) + Pregex({0})).one_or_more()', "Either({0}, 'k').indefinite()", "Capture({0}).exactly(2)", "Optional({0}).one_or_more()"]
+        exc = 'CannotBeRepeatedException'
+    else:
+        forms = ["PrecededBy('k', {0})", "NotPrecededBy('k', {0})", "EnclosedBy('k', {0})", "NotEnclosedBy('k', {0})",
+                 "Pregex('k').preceded_by({0})", "Pregex('k').not_enclosed_by({0})", "PrecededBy('k', Exactly({0}, 2))",
+                 "NotPrecededBy('k', Pregex({0}) + Pregex({0}))", "PrecededBy('k', Either({0}, {0}))", "PrecededBy('k', Capture({0}))"]
+        exc = 'NonFixedWidthPatternException'
+    for s in lits:
+        for f in forms:
+            src = f.format(repr(s))
+            n += 1
+            try:
+                r = dsl.build(src)
+                bad = None if rx.compiles(str(r))[0] else 'returned %r which re rejects' % str(r)
+            except Exception as e:  # noqa: BLE001
+                bad = 'raised ' + type(e).__name__
+            if bad:
+                viol.append(V(f'{pid}|literal|{src}', f"{src}: {bad} (a literal string is repeatable and has one fixed width)",
+                              f"from mc import rx\nr = {src}\nassert rx.compiles(str(r))[0], str(r)"))
+    return viol, n
+
+
+def _literal_sweep(run, pid, cov):
+    from .. import common
+    lits = [s for s in al.all_literals() if s]
+    n = 0
+    for viol, k in common.pmap(_task_literals, [(c, pid) for c in common.chunks(lits, 60)]):
+        run.add(viol)
+        n += k
+    run.count('literal_sweep_cases', n)
+    cov['transitions'] += n
+    cov['traces_validated_against_impl'] += n
+    cov['rule'] += f' || every literal of the alphabet ({len(lits)} strings: all of length <= 2 over 45 symbols + curated) under the repeating quantifier / lookbehind forms'
 
 
 def run_C09(run):
-    return _run(run, [monitors.C09()])
+    cov, assumptions = _run(run, [monitors.C09()])
+    _literal_sweep(run, 'C09', cov)
+    return cov, assumptions
 
 
 def run_C10(run):
-    return _run(run, [monitors.C10()])
+    cov, assumptions = _run(run, [monitors.C10()])
+    _literal_sweep(run, 'C10', cov)
+    return cov, assumptions
 
 
 def run_C20(run):
